@@ -11,6 +11,8 @@
   reused fewer than 2^64 times (trusted-base note in DESIGN §9, not an axiom).
 -/
 import BroodModel.Lemmas.Alloc
+import BroodModel.Lemmas.AllocPres
+import BroodModel.Lemmas.Entity
 
 namespace Brood
 open Alloc
@@ -256,8 +258,64 @@ example : exampleState.map (fun s => (s.issued, s.retired.length, s.a.free)) =
 
 end Brood
 
+namespace Brood
+open Alloc
+
+/-! ### lifted to worlds: every world history is an allocator history
+
+`step_apres` / `run_apres` (Lemmas/AllocPres): every world operation — insert, extend, remove
+(with its swap-remove fix-up), clear, Entry::add / Entry::remove (row moves), writes, reserve,
+shrink_to_fit — acts on the allocator only through `allocate`, `release` and `setLoc` applied to
+live identifiers.  Hence the allocator-level facts above hold along every world history. -/
+
+/-- **Dead once removed, forever**: after `remove` of a live identifier, no later history ever
+makes it live again (`contains`, `entry`, queries by identifier all reject it). -/
+theorem C02_world_dead_forever {w w1 w2 : World} {id : Ident} {drops : List Val} (hi : Inv w)
+    (hl : (w.alloc.get id).isSome) (e : w.remove id = .ok (w1, drops)) (ops : List Op)
+    (h : run w1 ops = .ok w2) :
+    w2.alloc.get id = none ∧ w2.entity id = none ∧ w2.contains id = false := by
+  have hd := remove_makes_dead hi hl e
+  have hd2 : Dead w2.alloc id := run_apres (apres_dead id) ops (remove_inv hi e) hd h
+  have hg := hd2.not_live
+  refine ⟨hg, entity_none_of_dead hg, ?_⟩
+  unfold World.contains
+  cases hc : w2.alloc.isActive id with
+  | false => rfl
+  | true => rw [isActive_iff_get.mp hc |> Option.isSome_iff_exists.mp |>.choose_spec] at hg; cases hg
+
+/-- **An identifier is never issued twice**: whatever `insert` returned at some point of a world's
+history is never returned again by a later `insert`, however many removals, shape changes and
+clears lie in between. -/
+theorem C02_world_never_reissued {w w1 w2 w3 : World} {shape shape' : List Nat} {vals vals' : List Val}
+    {id id' : Ident} (hi : Inv w) (e1 : w.insert shape vals = .ok (w1, id)) (ops : List Op)
+    (h : run w1 ops = .ok w2) (e2 : w2.insert shape' vals' = .ok (w3, id')) : id' ≠ id := by
+  obtain ⟨loc, ha⟩ := insert_alloc hi e1
+  have hg1 : Ghost w1.alloc [id] := allocate_ghost (Ghost.nil _) ha
+  have hi1 := insert_inv hi e1
+  have hg2 : Ghost w2.alloc [id] := run_apres (apres_ghost [id]) ops hi1 hg1 h
+  obtain ⟨loc', ha'⟩ := insert_alloc (run_inv hi1 ops h) e2
+  have := allocate_fresh hg2 ha'
+  intro e'; exact this (by simp [e'])
+
+/-- **Stable while live**: operations aimed at other identifiers never change what a live
+identifier resolves to (the frame halves of the C01 per-operation theorems, collected). -/
+theorem C02_world_stable {w w' : World} (hi : Inv w) {id x : Ident} (hne : x ≠ id) :
+    (∀ drops, w.remove id = .ok (w', drops) → w'.entity x = w.entity x) ∧
+    (∀ c v res, c < w.n → v.ty = c → w.entryAdd id c v = .ok (w', res) → w'.entity x = w.entity x) ∧
+    (∀ c res, w.entryRemove id c = .ok (w', res) → w'.entity x = w.entity x) ∧
+    (∀ c v res, v.ty = c → w.write id c v = .ok (w', res) → w'.entity x = w.entity x) :=
+  ⟨fun _ e => (remove_entity hi e).2.1 x hne,
+   fun _ _ _ hc hv e => (entryAdd_entity hi hc hv e).2.1 x hne,
+   fun _ _ e => (entryRemove_entity hi e).2.1 x hne,
+   fun _ _ _ hv e => (write_entity hi hv e).2.1 x hne⟩
+
+end Brood
+
 #print axioms Brood.C02_unique
 #print axioms Brood.C02_fresh
 #print axioms Brood.C02_dead_forever
 #print axioms Brood.C02_stable
 #print axioms Brood.C02_no_ub
+#print axioms Brood.C02_world_dead_forever
+#print axioms Brood.C02_world_never_reissued
+#print axioms Brood.C02_world_stable
